@@ -6,6 +6,10 @@ import ChythonModel.Proofs.C03SpecRing
 import ChythonModel.Proofs.C03Mapping
 import ChythonModel.Proofs.C03Lexer
 import ChythonModel.Proofs.C03Strings
+import ChythonModel.Proofs.C03RingIff
+import ChythonModel.Proofs.C03PrintShape
+import ChythonModel.Proofs.C03Hydrogens
+import ChythonModel.Proofs.C03HydTotal
 /-!
 # C03 — SMILES reader builds exactly the molecule the text denotes, rejects the rest
 
@@ -231,6 +235,213 @@ example : (∃ st, parse false [.atom 0 { element := [67] }, .lpar, .bond 2, .at
 example : noEmptyOpen [.atom 0 { element := [67] }, .lpar, .bond 2, .rpar, .atom 0 { element := [78] }] = true ∧
     parse false [.atom 0 { element := [67] }, .lpar, .bond 2, .rpar, .atom 0 { element := [78] }] =
       .error (.lib "IncorrectSmiles" "bond before closure") := ⟨rfl, rfl⟩
+
+/-! ## accept / reject with ring closures: acceptance ⇔ grammar + closure discipline, and then graph = denotation -/
+
+/-- the reader accepts a token list: `parser` (default `strong_cycle = False`) returns a record and the bond loop of
+    `create_molecule` (`buildBonds`: "atom loops impossible", "atoms already bonded", bond order check), run under the
+    numbering `_mapping.py` assigns (`mapMolecule`), accepts its bonds -/
+def Accepts (toks : List Tok) : Prop := ∃ st, parse false toks = .ok st ∧ bondsBuild st
+
+/-- the token list is a sentence of the language: it is the printing of a syntax tree whose atoms carry their ring bonds
+    (`atom ringbond* branch*`), the spec assigns the tree a graph (`denoteR`: every ring number that is opened is closed
+    exactly once before it is used again, never at the atom that opened it, bond symbols on the two ends agree, nothing
+    stays open), and that graph is simple (no two bonds between the same pair of atoms) with ordinary bond orders -/
+def InLanguage (toks : List Tok) : Prop :=
+  ∃ (c : Chain B) (g : Graph B), toks = toToksB (printR (·.2) c) ∧ denoteR aromB (·.2) c = some g ∧
+    simpleBonds g.bonds = true ∧ ∀ b ∈ g.bonds, validOrder b.2.2 = true
+
+def startsAtom : List Tok → Bool
+  | .atom _ _ :: _ => true
+  | _ => false
+
+/-- Full statement for ALL token lists over atoms, bonds, direction marks, dots, parentheses and ring numbers.
+    False as it stands for three tolerated / delegated classes (witnesses in `Findings/C03.lean`): a leading branch
+    `(C)C`, `((` / `()` (refused by `_tokenize`, not by `parser`), and ring bonds written after a branch (`C(C)1CC1`:
+    OpenSMILES has `atom ringbond* branch*`; the reader, like RDKit and the shipped corpus, takes either order). -/
+def AcceptIffRingDiscipline : Prop :=
+  ∀ toks : List Tok, (∀ t ∈ toks, ringTok t = true) → (Accepts toks ↔ InLanguage toks)
+
+/-- **The proved part, for ALL token lists of that alphabet**: a list is accepted *and* is in none of the three classes
+    **iff** it is a sentence of the language. So, ring closures included: nothing outside the language yields a molecule
+    except through the three named classes — an unclosed or re-opened ring number, a ring closed at the atom that
+    opened it (`C11`), a second bond between the same two atoms (`C12CCC12`, `C1C1`), contradicting bond symbols on the
+    two ends (`C=1CC-1`) are all rejected, by `parser` or by the bond loop of `create_molecule` — and every sentence is
+    accepted. -/
+theorem accept_iff_ring_discipline_partial (toks : List Tok) (hring : ∀ t ∈ toks, ringTok t = true) :
+    (Accepts toks ∧ startsAtom toks = true ∧ noEmptyOpen toks = true ∧ noRingAfterClose toks = true) ↔
+      InLanguage toks := by
+  constructor
+  · rintro ⟨hacc, hsa, hneo, hnrac⟩
+    cases toks with
+    | nil => cases hsa
+    | cons t rest =>
+      cases t with
+      | atom ty a => exact (accept_iff_rings_core ty a rest hring hneo hnrac).mp hacc
+      | _ => cases hsa
+  · rintro ⟨c, g, hc, hrest⟩
+    obtain ⟨ty, a, rest, hshape⟩ := printR_starts_atom c
+    have h1 := printR_noEmptyOpen c
+    have h2 := printR_noRingAfterClose c
+    rw [← hc] at h1 h2
+    rw [← hc] at hshape
+    subst hshape
+    exact ⟨(accept_iff_rings_core ty a rest hring h1 h2).mpr ⟨c, g, hc, hrest⟩, rfl, h1, h2⟩
+
+/-- … and whenever such a list is accepted, what `parser` returns **is** the denotation: atoms in writing order, their
+    aromatic/aliphatic types, chain and ring bonds in writing order of their later end with the orders the spec assigns -/
+theorem accepted_graph_is_denotation (ty : Nat) (a : AtomTok) (rest : List Tok) (st : PState)
+    (hring : ∀ t ∈ Tok.atom ty a :: rest, ringTok t = true)
+    (hneo : noEmptyOpen (Tok.atom ty a :: rest) = true)
+    (hnrac : noRingAfterClose (Tok.atom ty a :: rest) = true)
+    (h : parse false (Tok.atom ty a :: rest) = .ok st) (hb : bondsBuild st) :
+    ∃ (c : Chain B) (g : Graph B), Tok.atom ty a :: rest = toToksB (printR (·.2) c) ∧
+      denoteR aromB (·.2) c = some g ∧ st.atoms = g.atoms.map (fun b => strip b.1) ∧
+      st.types = g.atoms.map (fun b => tyOf b.1) ∧ st.bonds = g.bonds :=
+  accepted_is_denotation ty a rest st hring hneo hnrac h hb
+
+/-- **String level**: for every string that `smiles_tokenize` turns into tokens, the alphabet hypothesis and the `((`/`()`
+    hypothesis are discharged by the tokenizer (`_tokenize` never emits `(` directly followed by a parenthesis, bracket
+    atoms come out as type 0/8, query tokens never get through). So for every tokenizable string: accepted, starting
+    with an atom and without a ring bond after a `)`  ⇔  its token list is a sentence of the language. -/
+theorem accept_iff_ring_discipline_strings (s : Str) (toks : List Tok) (htok : smilesTokenize s = .ok toks) :
+    (Accepts toks ∧ startsAtom toks = true ∧ noRingAfterClose toks = true) ↔ InLanguage toks := by
+  obtain ⟨hring, hneo⟩ := smilesTokenize_ring s toks htok
+  rw [← accept_iff_ring_discipline_partial toks hring]
+  constructor
+  · rintro ⟨h1, h2, h3⟩; exact ⟨h1, h2, hneo, h3⟩
+  · rintro ⟨h1, h2, _, h3⟩; exact ⟨h1, h2, h3⟩
+
+/-- the bond loop of `create_molecule` in isolation: with pairwise distinct atom numbers and bond ends in range it
+    succeeds exactly on simple graphs with valid orders, and otherwise raises ValueError — never anything else -/
+theorem bond_loop_accepts_iff_simple (mapping : List Nat) (hnd : mapping.Nodup) (bs : List (Nat × Nat × Nat))
+    (hin : ∀ b ∈ bs, b.1 < mapping.length ∧ b.2.1 < mapping.length) :
+    ((∃ adj, buildBonds mapping bs (mapping.map fun n => (n, [])) = .ok adj) ↔
+      (simpleBonds bs = true ∧ ∀ b ∈ bs, validOrder b.2.2 = true)) ∧
+    ((∃ adj, buildBonds mapping bs (mapping.map fun n => (n, [])) = .ok adj) ∨
+      ∃ msg, buildBonds mapping bs (mapping.map fun n => (n, [])) = .error (.lib "ValueError" msg)) :=
+  ⟨buildBonds_ok_iff mapping hnd bs hin, buildBonds_lib_error mapping bs hin⟩
+
+/-- sentences and non-sentences (hypotheses are satisfiable; each rejected class is hit):
+    `C1CC1`, `C%12CC%12` accepted; `C11`, `C12CCC12`, `C=1CC-1`, `C1CC` not -/
+def tC : Tok := .atom 0 { element := [67] }
+example : Accepts [tC, .cyc 1, tC, tC, .cyc 1] := ⟨_, rfl, _, _, rfl, rfl⟩
+example : Accepts [tC, .cyc 12, tC, tC, .cyc 12] := ⟨_, rfl, _, _, rfl, rfl⟩
+example : InLanguage [tC, .cyc 1, tC, tC, .cyc 1] :=
+  (accept_iff_ring_discipline_partial _ (by decide)).mp ⟨⟨_, rfl, _, _, rfl, rfl⟩, rfl, rfl, rfl⟩
+example : ¬ InLanguage [tC, .cyc 1, .cyc 1] := fun h => by
+  obtain ⟨⟨st, hp, r', adj, hm, hb⟩, _⟩ := (accept_iff_ring_discipline_partial _ (by decide)).mpr h
+  cases hp; cases hm; cases hb
+example : ¬ InLanguage [tC, .cyc 1, .cyc 2, tC, tC, tC, .cyc 1, .cyc 2] := fun h => by
+  obtain ⟨⟨st, hp, r', adj, hm, hb⟩, _⟩ := (accept_iff_ring_discipline_partial _ (by decide)).mpr h
+  cases hp; cases hm; cases hb
+example : ¬ InLanguage [tC, .bond 2, .cyc 1, tC, tC, .bond 1, .cyc 1] := fun h => by
+  obtain ⟨⟨st, hp, _⟩, _⟩ := (accept_iff_ring_discipline_partial _ (by decide)).mpr h
+  cases hp
+example : ¬ InLanguage [tC, .cyc 1, tC, tC] := fun h => by
+  obtain ⟨⟨st, hp, _⟩, _⟩ := (accept_iff_ring_discipline_partial _ (by decide)).mpr h
+  cases hp
+
+/-! ## hydrogens after graph construction (`create_molecule`, second half) -/
+
+open ChythonModel.Model.Valence ChythonModel.Spec in
+/-- Full statement, unbracketed atoms: an organic-subset atom written without brackets (neutral, not named in a CXSMILES
+    radical block), with localised bonds, gets the OpenSMILES count — difference to the lowest normal valence that is
+    ≥ the bond-order sum, 0 above all of them. False for chython beyond the *lowest* normal valence: its valence model
+    has no "next higher valence" rule (N with four single bonds, P/S/halogens outside their listed environments get a
+    valence error, hydrogens `None`): witness in `Findings/C03.lean`; C04 owns that model. -/
+def OrganicHydrogensOpenSmiles : Prop :=
+  ∀ z ∈ OrganicValence.organicSubset, ∀ bs : List BE, aromaCount bs = 0 →
+    assignH ⟨z, 0, false, bs⟩ none = (organicH z (explicitSum bs)).map fun h => (some h, false)
+
+open ChythonModel.Model.Valence ChythonModel.Spec in
+/-- **Proved part**: for all ten organic-subset elements, any neighbours, any number of localised bonds whose orders sum
+    to at most the lowest normal valence (B 3, C 4, N 3, O 2, P 3, S 2, halogens 1): the hydrogen loop of the reader
+    leaves exactly the OpenSMILES count on the atom and no radical mark. -/
+theorem organic_hydrogens_partial (z : Nat) (hz : z ∈ OrganicValence.organicSubset) (bs : List BE)
+    (ha : aromaCount bs = 0) (v0 : Nat) (hl : OrganicValence.lowest z = some v0) (hle : explicitSum bs ≤ v0) :
+    assignH ⟨z, 0, false, bs⟩ none = (organicH z (explicitSum bs)).map fun h => (some h, false) :=
+  organic_low z hz bs ha v0 hl hle
+
+open ChythonModel.Model.Valence ChythonModel.Spec in
+/-- … and what happens above it for B C N O F (the exact excluded class for the second period): a valence error,
+    hydrogens `None`, whatever the neighbours are -/
+theorem organic_hydrogens_second_period_above (z : Nat) (hz : z ∈ [5, 6, 7, 8, 9]) (bs : List BE)
+    (ha : aromaCount bs = 0) (v0 : Nat) (hl : OrganicValence.lowest z = some v0) (hgt : v0 < explicitSum bs) :
+    assignH ⟨z, 0, false, bs⟩ none = some (none, false) := second_period_above z hz bs ha v0 hl hgt
+
+open ChythonModel.Model.Valence in
+example : assignH ⟨7, 0, false, [(1, 6), (2, 8)]⟩ none = some (some 0, false) := by decide +kernel   -- C-N=O
+open ChythonModel.Model.Valence in
+example : assignH ⟨16, 0, false, [(1, 6)]⟩ none = some (some 1, false) := by decide +kernel           -- C-SH
+
+open ChythonModel.Model.Valence in
+/-- Full statement, bracket atoms: the atom carries exactly the written count. False: a count the valence tables admit
+    neither as written nor as a mono-radical is replaced (`[CH2]` is built as CH4; known finding
+    `hydrogens-open-valence-2`, witness in `Findings/C03.lean`). -/
+def BracketHydrogensWritten : Prop :=
+  ∀ (c : Ctx) (h : Nat), (assignH c (some h)).map (·.1) = (tableOf c.z).map fun _ => bracketH h
+
+open ChythonModel.Model.Valence in
+/-- **Proved part 1 (exact class)**: for a bracket atom with localised bonds the written count is kept **iff**
+    `check_implicit` (C04's valence model over the regenerated tables) admits that count for the atom as written, or —
+    when the atom is not already a CXSMILES radical — for its radical form. -/
+theorem bracket_hydrogens_kept_iff (c : Ctx) (h : Nat) (t : Rules) (ht : tableOf c.z = some t)
+    (ha : aromaCount c.bonds = 0) :
+    (assignH c (some h)).map (·.1) = some (some (bracketH h)) ↔
+      (checkWith t c h = true ∨ (c.radical = false ∧ checkWith t { c with radical := true } h = true)) := by
+  have hna : isAromaticAtom c = false := by simp [isAromaticAtom, ha]
+  have key := assignWith_kept_iff (calcWith t) (checkWith t) c h hna
+    (fun k hk => check_of_calc t c k ha hk) (fun hn k => check_of_calc_none t c ha hn k)
+  simp only [assignH, ht, Option.map_some, Option.some.injEq, bracketH]
+  exact key
+
+open ChythonModel.Model.Valence in
+/-- **Proved part 2**: in every case (any bonds, any element) a bracket atom ends with the written count or with the
+    count `calc_implicit` computes for it — never with a third value -/
+theorem bracket_hydrogens_written_or_calculated (c : Ctx) (h : Nat) (t : Rules) (ht : tableOf c.z = some t) :
+    (assignH c (some h)).map (·.1) = some (some (bracketH h)) ∨ (assignH c (some h)).map (·.1) = some (calcWith t c) := by
+  simp only [assignH, ht, Option.map_some, Option.some.injEq, bracketH]
+  exact assignWith_written_or_calc (calcWith t) (checkWith t) c h
+
+open ChythonModel.Model.Valence in
+/-- **Proved part 3**: aromatic bracket atoms other than neutral carbon (`[nH]`, `[n+]`, `[se]`, `[o+]`, `[c-]`) always
+    keep the written count (their count is not computable before `kekule()`), radical flag untouched -/
+theorem bracket_hydrogens_aromatic (c : Ctx) (h : Nat) (t : Rules) (ht : tableOf c.z = some t) (hz : c.z ≠ 1)
+    (ha : aromaCount c.bonds ≠ 0) (hc : ¬ (c.charge = 0 ∧ c.radical = false ∧ c.z = 6)) :
+    assignH c (some h) = some (some (bracketH h), c.radical) := by
+  have har : isAromaticAtom c = true := by simp [isAromaticAtom, ha]
+  simp only [assignH, ht, Option.map_some, bracketH]
+  rw [assignWith_aromatic_none _ _ c h har (calc_aromatic_hetero t c hz har hc)]
+
+open ChythonModel.Model.Valence in
+/-- the radical mark is switched on only because the radical form admits the written count (SMILES writes radicals
+    through the hydrogen count), or in the `c[c]c` special case -/
+theorem bracket_radical_sound (c : Ctx) (h : Nat) (t : Rules) (ht : tableOf c.z = some t) (r : Option Nat × Bool)
+    (hr : assignH c (some h) = some r) (hrad : r.2 = true) :
+    c.radical = true ∨ checkWith t { c with radical := true } h = true ∨ aromRadicalCase c h = true := by
+  simp only [assignH, ht, Option.map_some, Option.some.injEq] at hr
+  subst hr
+  exact assignWith_radical (calcWith t) (checkWith t) c h hrad
+
+open ChythonModel.Model.Valence in
+/-- instances: `[CH3]` (radical form admitted), `[NH4+]` (as written), `[CH2]` (replaced) -/
+example : assignH ⟨6, 0, false, []⟩ (some 3) = some (some 3, true) := by decide +kernel
+open ChythonModel.Model.Valence in
+example : assignH ⟨7, 1, false, []⟩ (some 4) = some (some 4, false) := by decide +kernel
+open ChythonModel.Model.Valence in
+example : assignH ⟨6, 0, false, []⟩ (some 2) = some (some 4, false) := by decide +kernel
+
+/-- **Tie to the pipeline**: on every molecule the structural part of `create_molecule` builds, the hydrogen loop
+    raises nothing and yields one entry per atom in atom order; entry `i` is `assignH` of the context
+    `calc_implicit` would read for atom `i` (`hCtx`) and the atom's written count — so the theorems above are
+    statements about every atom of every accepted string. -/
+theorem hydrogens_of_built_molecule (r : MolRec) (m : MolOut) (h : buildMol r = .ok m) :
+    ∃ l, molHydrogens m = .ok l ∧ l.map (·.1) = m.atoms.map (·.1) ∧
+      ∀ (i : Nat) (a : Nat × Nat × Option Nat × Int × Bool × Option Nat), m.atoms[i]? = some a →
+        ∃ c x, hCtx m a = some c ∧ assignH c a.2.2.2.2.2 = some x ∧ l[i]? = some (a.1, x.1, x.2) := by
+  obtain ⟨l, hl, hids⟩ := molHydrogens_total r m h
+  exact ⟨l, hl, hids, fun i a hi => hydLoop_entry m m.atoms l hl i a hi⟩
 
 /-! ## atom numbering from atom maps (`_mapping.py`) -/
 
